@@ -1,10 +1,14 @@
 //! Output protocol (JSON lines on stdout), failure records, fault handler,
 //! panic capture and the distinct-case bitmap.
 
+#[allow(unused_imports)]
+use crate::prelude::*;
 use crate::case::Case;
 use crate::mem::Place;
 use crate::util::json_escape;
+#[cfg(not(target_arch = "wasm32"))]
 use std::cell::RefCell;
+#[cfg(not(target_arch = "wasm32"))]
 use std::io::Write;
 
 // ---------------------------------------------------------------------------
@@ -153,18 +157,50 @@ mod fault {
     }
 }
 
+// AddressSanitizer kills the process at the first report: print the case that
+// was being executed from its death callback so the orchestrator can attribute
+// the report (the asan build configuration sets --cfg vh_asan).
+#[cfg(vh_asan)]
+mod asan_cb {
+    extern "C" {
+        fn __sanitizer_set_death_callback(cb: extern "C" fn());
+        fn write(fd: i32, buf: *const u8, n: usize) -> isize;
+    }
+    extern "C" fn on_death() {
+        let line = format!("\n{{\"t\":\"case\",{}}}\n", super::last_case_json());
+        unsafe {
+            write(1, line.as_ptr(), line.len());
+        }
+    }
+    pub fn install() {
+        unsafe { __sanitizer_set_death_callback(on_death) }
+    }
+}
+
 pub fn install_fault_handler() {
     #[cfg(all(not(miri), target_os = "linux", target_arch = "x86_64"))]
     fault::install();
+    #[cfg(vh_asan)]
+    asan_cb::install();
 }
 
 // ---------------------------------------------------------------------------
 // panic capture
 
+#[cfg(not(target_arch = "wasm32"))]
 thread_local! {
     static PANIC_MSG: RefCell<String> = const { RefCell::new(String::new()) };
 }
 
+#[cfg(target_arch = "wasm32")]
+pub fn install_panic_hook() {}
+
+#[cfg(target_arch = "wasm32")]
+pub fn take_panic_msg() -> String {
+    String::new()
+}
+
+#[cfg(not(target_arch = "wasm32"))]
 pub fn install_panic_hook() {
     std::panic::set_hook(Box::new(|info| {
         let msg = if let Some(s) = info.payload().downcast_ref::<&str>() {
@@ -184,6 +220,7 @@ pub fn install_panic_hook() {
     }));
 }
 
+#[cfg(not(target_arch = "wasm32"))]
 pub fn take_panic_msg() -> String {
     PANIC_MSG.with(|m| core::mem::take(&mut *m.borrow_mut()))
 }
@@ -322,7 +359,11 @@ impl Reporter {
 
     /// Emit the final statistics. `bitmap_path`: where to dump the bitmap.
     pub fn finish(&mut self, bitmap_path: Option<&str>) {
+        #[allow(unused_mut)]
         let mut bm_written = false;
+        #[cfg(target_arch = "wasm32")]
+        let _ = bitmap_path;
+        #[cfg(not(target_arch = "wasm32"))]
         if let (true, Some(path)) = (self.use_bitmap, bitmap_path) {
             if let Ok(mut f) = std::fs::File::create(path) {
                 let bytes = unsafe {
@@ -365,6 +406,7 @@ impl Reporter {
             self.samples.join(","),
         );
         println!("{{\"t\":\"done\"}}");
+        #[cfg(not(target_arch = "wasm32"))]
         let _ = std::io::stdout().flush();
     }
 }
